@@ -778,3 +778,49 @@ func FamHub[T any](c Codec[T], seed int64) SysRecord {
 	rec.Events = w.Events()
 	return rec
 }
+
+// ---- C03: a call in flight inside the registry's enumeration callback when the link fails ----
+func FamInForRemotes[T any](c Codec[T], stream bool, chunk int, seed int64) SysRecord {
+	rec := SysRecord{Family: "inforremotes", Config: cfgName(c.Name, stream, chunk), Seed: seed}
+	p, err := newPair(c, stream, chunk, seed)
+	if err != nil {
+		rec.Notes = append(rec.Notes, err.Error())
+		return rec
+	}
+	done := make(chan SysCall, 1)
+	go func() {
+		p.a.Reg.ForRemotes(func(id string, r sysRemote) error {
+			v, err := r.Gate(context.Background(), 650)
+			done <- SysCall{Tag: 650, From: "A", Method: "GateInForRemotes", Ret: canon(v), Err: errText(err), Done: true}
+			return nil
+		})
+	}()
+	waitUntil(func() bool {
+		for _, e := range p.w.Events() {
+			if e.Kind == "inv" && e.Method == "Gate" {
+				return true
+			}
+		}
+		return false
+	}, 3*time.Second)
+	// the transport fails (no context is cancelled)
+	p.l.CloseTransport(errors.New("transport failed"))
+	select {
+	case cl := <-done:
+		rec.Calls = append(rec.Calls, cl)
+	case <-time.After(4 * time.Second):
+		rec.Calls = append(rec.Calls, SysCall{Tag: 650, From: "A", Method: "GateInForRemotes", Err: "STILL BLOCKED 4 s after the link ended"})
+		rec.Hang = true
+	}
+	close(p.w.gate(650))
+	select {
+	case e := <-p.l.ErrA:
+		rec.LinkA = errText(e)
+	case <-time.After(4 * time.Second):
+		rec.Notes = append(rec.Notes, "Link on the calling side did not return after its transport failed")
+	}
+	p.l.CancelA()
+	p.l.CancelB()
+	rec.Events = p.w.Events()
+	return rec
+}
